@@ -1,17 +1,28 @@
 PROP = {'id': 'C10',
-    'level': 'proof',
-    'functions': ['Cluster._serialize',
-    'Cluster._serialize_jobs',
-    'Cluster._promote_to_submitter',
-    'Cluster._demote_from_submitter',
-    'Cluster._mark_complete',
-    'Cluster._mark_canceled',
-    'Cluster.promote_to_submitter',
-    'Cluster.demote_from_submitter',
-    'Cluster.mark_complete',
-    'Cluster.mark_canceled',
-    'Cluster._update_job_status',
-    'Cluster.update_job_status'], 'native': ['Cluster._serialize'], 'lemmas': ['lemma_c10_single_submitter'], 'records': ['Cluster',
-    'ClusterConfig'], 'min_obligations': 300, 'assumptions': ['T-lock',
-    'A-host: handles are identified by process in the lemma, by hostname in the code; the promotion typestate precondition closes the gap for the call sites under contract',
-    'Cluster._deserialize (json load + pydantic, **kwargs) is an assumed contract'], 'not_decided': ['CLI call sites (try_submit_jobs/cancel_jobs/resubmit_jobs callbacks) are not yet under contract: the discipline precondition is checked only in HpcSubmitter/Cluster callers'], 'explanation': '_serialize raises ConfigVersionMismatch iff the handle is stale and writes nothing before; promotion fails iff a submitter is recorded; lemma L-C10 lifts this to all interleavings of lock-protected operations.'}
+ 'level': 'proof',
+ 'functions': ['Cluster._serialize',
+               'Cluster._serialize_jobs',
+               'Cluster._promote_to_submitter',
+               'Cluster._demote_from_submitter',
+               'Cluster._mark_complete',
+               'Cluster._mark_canceled',
+               'Cluster.promote_to_submitter',
+               'Cluster.demote_from_submitter',
+               'Cluster.mark_complete',
+               'Cluster.mark_canceled',
+               'Cluster._update_job_status',
+               'Cluster.update_job_status',
+               'try_submit_jobs'],
+ 'native': ['Cluster._serialize'],
+ 'lemmas': ['lemma_c10_single_submitter'],
+ 'records': ['Cluster', 'ClusterConfig'],
+ 'min_obligations': 300,
+ 'assumptions': ['T-lock',
+                 'A-host: handles are identified by process in the lemma, by hostname in the code; the promotion typestate precondition closes the gap for the '
+                 'call sites under contract',
+                 'Cluster._deserialize (json load + pydantic, **kwargs) is an assumed contract'],
+ 'not_decided': ['CLI call sites (cancel_jobs/resubmit_jobs callbacks; try_submit_jobs IS under contract) are not yet under contract: the discipline '
+                 'precondition is checked only in HpcSubmitter/Cluster callers'],
+ 'explanation': '_serialize raises ConfigVersionMismatch iff the handle is stale and writes nothing before; promotion fails iff a submitter is recorded; lemma '
+                'L-C10 lifts this to all interleavings of lock-protected operations. The try-submit-jobs callback is under contract: not promoted => nothing '
+                'written or submitted, exit 0; promoted => the role is given back before every sys.exit.'}
